@@ -290,6 +290,8 @@ def dict_method(I, st, meth, obj, args, kwargs, node):
             d = args[1] if len(args) > 1 else kwargs["default"]
             if d.ty == "NoneT":
                 return opt_val(I, st, vt, cur, z3.Not(indom))
+            if _is_placeholder(d) and is_ref(vt):
+                d = I.new_list(st, vt[1]) if REG.get(vt[1]).kind == "list" else I.new_dict(st, vt[1])
             d2 = I.coerce(st, d, vt)
             if sort_of(strip_opt(d2.ty)) != sort_of(vt):
                 raise Unsupported("dict.get default sort mismatch")
